@@ -405,6 +405,20 @@ theorem optGR (r : Nat) (cfg : Cfg) (o : Option Expr) (h : Nat) : HasHtR r (optG
     · rfl
     · exact emitG_noRet cfg _ false)
 
+theorem varInitR (r : Nat) (cfg : Cfg) (c : IdClass) (init : Expr) (h : Nat) : HasHtR r (emitVarInit cfg c init) h h :=
+  HasHtR.of_noRet (emitVarInit_ht cfg c init h) (by
+    have h1 := noRet_emitVarRef cfg c
+    have h2 : (emitE cfg init true).noRet = true := noRet_foldOr (emitG_noRet cfg init true)
+    unfold emitVarInit
+    split <;> simp [cat, Code.noRet, Instr.isRet, iInitValueP, iInitStackP, h1, h2])
+
+theorem forInitR (r : Nat) (cfg : Cfg) (i : ForInit) (h : Nat) : HasHtR r (emitForInit cfg i) h h := by
+  cases i with
+  | none => exact HasHtR.nil
+  | expr e => exact HasHtR.of_noRet ((emitG_disc cfg e).2 h) (emitG_noRet cfg e false)
+  | var0 => exact HasHtR.nil
+  | varInit c e => exact varInitR r cfg c e h
+
 theorem throwR (r : Nat) (m : Bool) (h k : Nat) : HasHtR r (emitThrow m) h k :=
   HasHtR.of_noRet (emitThrow_ht m h k) (noRet_emitThrow m)
 
@@ -453,13 +467,7 @@ theorem emitS_htR (cfg : Cfg) : (s : Stmt) → ∀ (nr : Bool) (h : Nat), HasHtR
       exact HasHtR.seq (exprR_t _ cfg e h) (pop1R h rfl rfl rfl rfl)
   | .empty, nr, h => by simp only [emitS]; exact clrR _ nr h
   | .varBare, _, h => by simp only [emitS]; exact HasHtR.nil
-  | .varInit c init, _, h => by
-    simp only [emitS]
-    split
-    · simp only [cat]
-      exact HasHtR.seq (HasHtR.of_noRet (emitVarRef_ht cfg c h) (noRet_emitVarRef cfg c))
-        (HasHtR.seq (exprR_t _ cfg init h) (HasHtR.seq (pop1R h rfl rfl rfl rfl) HasHtR.nil))
-    · exact HasHtR.seq (exprR_t _ cfg init h) (pop1R h rfl rfl rfl rfl)
+  | .varInit c init, _, h => by simp only [emitS]; exact varInitR _ cfg c init h
   | .block ss, nr, h => by simp only [emitS]; exact emitList_htR cfg ss _ _ h
   | .ifS t a, nr, h => by
     simp only [emitS]
@@ -500,7 +508,7 @@ theorem emitS_htR (cfg : Cfg) : (s : Stmt) → ∀ (nr : Bool) (h : Nat), HasHtR
       exact HasHtR.seq (clrR _ nr h) (HasHtR.seq (emitS_htR cfg body nr h) (HasHtR.seq (optGR _ cfg update h) HasHtR.nil))
     simp only [emitS]
     rw [show ∀ a b c, cat [a, b, c] = .seq a (.seq b (.seq c .nil)) from fun _ _ _ => rfl]
-    refine HasHtR.seq (optGR _ cfg init h) (HasHtR.seq (clrR _ nr h) (HasHtR.seq ?_ HasHtR.nil))
+    refine HasHtR.seq (forInitR _ cfg init h) (HasHtR.seq (clrR _ nr h) (HasHtR.seq ?_ HasHtR.nil))
     cases test with
     | none => exact HasHtR.forever hbody
     | some t =>
